@@ -334,6 +334,15 @@ def tokens(chk, rule='C09.R3'):
                                                                                   for x in ast.walk(fn)):
                     # the token sits in a table the method compares received messages with (dispatch table / membership test)
                     cmp_.setdefault(r.attr, []).append((role, f'{cname}.{mname}', r))
+    # a token handed to the seat queues by a helper object of the table manager's side (a context manager, a queue wrapper ...): any use of the token
+    # outside PlayerThread that is not a comparison counts as the main side putting it
+    for m2, c2, fn2 in repo.all_functions():
+        if m2 is not sm or (c2 is not None and c2.name in ('PlayerThread', 'Server')):
+            continue
+        for r in tok_refs(fn2):
+            p = parent(r)
+            if not isinstance(p, ast.Compare):
+                put.setdefault(r.attr, []).append(('main', f'{c2.name if c2 is not None else "server"}.{fn2.name}', r))
     for n in names:
         puts = [x for x in put.get(n, []) if x[0] == 'main']
         cmps = [x for x in cmp_.get(n, []) if x[0] == 'seat']
